@@ -36,6 +36,16 @@ class PyStr:
     return 'PyStr(%r)' % self.s
 
 
+class Sentinel:
+  """A unique Python object such as NotImplemented (compared by identity)."""
+
+  def __init__(self, name):
+    self.name = name
+
+  def __repr__(self):
+    return self.name
+
+
 class PyTuple:
   """A Python-level tuple/list of values of mixed kinds (unpacking, isinstance)."""
 
